@@ -235,9 +235,17 @@ def on_tb(p, r, exc, acc):
         st, mod = p.vc(str_eq_term(values.lift(got), SymStr(want)))
         if st == "fails":
             acc.candidate(kind="template-line-text", input=desc(mod), detail="reported %r" % conc(got, mod))
-    acc.vcs += 1
-    if not (values.lift(rt.source) == src if isinstance(rt.source, (str, SymStr)) else False):
-        pass
+    # the same source, as the text before a raising expression of a real template: the HTML and text error templates must
+    # show that expression's line (real code, child interpreter)
+    w = src.concretize(m)
+    disp = realproc.call("runtime_error_display", w)
+    acc.replayed += 1
+    acc.vcs += 2
+    if disp is not None:
+        if not any("MARK" in x for x in disp["html_highlighted"]) or len(disp["html_highlighted"]) != 1:
+            acc.candidate(kind="error-page-wrong-line", input=dict(prefix=w), detail="html_error_template highlights %r" % (disp["html_highlighted"],))
+        elif disp["text"] is None or disp["text"][0] != disp["line"] or "MARK" not in disp["text"][1]:
+            acc.candidate(kind="error-page-wrong-line", input=dict(prefix=w), detail="text_error_template reports %r, the raise is on line %d" % (disp["text"], disp["line"]))
     acc.sample(desc(m))
 
 
@@ -306,6 +314,13 @@ if "marker" in CASE:
                 if got != target: bad = "traceback frame mapped to template line %s, the raising construct is on line %d" % (got, target)
         finally:
             shutil.rmtree(base, ignore_errors=True)
+elif "prefix" in CASE:
+    from props.realops import runtime_error_display
+    d = runtime_error_display(CASE["prefix"])
+    print("template:", repr(CASE["prefix"] + "\\n${1/0} MARK\\nafter"))
+    print("raising line:", d["line"], " html highlights:", d["html_highlighted"], " text template reports:", d["text"])
+    if len(d["html_highlighted"]) != 1 or "MARK" not in d["html_highlighted"][0]: bad = "the HTML error page highlights a different line"
+    elif d["text"] is None or d["text"][0] != d["line"] or "MARK" not in d["text"][1]: bad = "the text error page reports a different line"
 elif "source" in CASE:
     # a real template whose source is the counterexample text followed by a raising expression on a known line
     src = CASE["source"]
@@ -359,7 +374,7 @@ def run(check, tier):
         "a symbolic sparse map; RichTraceback._init runs on a symbolic line map and a symbolic template source containing several kinds "
         "of line boundary characters, with traceback.extract_tb and the module registry stubbed")
     check.not_claimed("templates outside the corpus (the claim is per emission site kind, for every vertical layout)",
-                      "warning filter interaction (once / error): interpreter state", "pygments highlighting in error templates")
+                      "the 'error' filter action (the warning is raised from the first parse; pinned by the repository's tests)", "pygments highlighting in error templates")
     jobs = []
     for name in CORPUS:
         jobs.append(("C12-emit-" + name, h_emission(name), on_emission, "emission sites of corpus template '%s' with symbolic line numbers" % name,
@@ -376,4 +391,9 @@ def run(check, tier):
         check.section(title, st, acc, bounds, tags_required=req)
         cands.extend(acc.candidates)
     check.confirm(cands, make_replay, classify)
+    from . import C12_warn
+    wc = []
+    C12_warn.run(check, tier, wc)
+    check.confirm(wc, C12_warn.make_replay, C12_warn.classify, max_confirm=24, per_finding=2)
     driver.close_pool()
+    realproc.shutdown()
